@@ -93,6 +93,14 @@ def directed():
         dict(B, kind='test', name='t4', deps=['t2', 't1']),
         dict(B, kind='test', name='t5', deps=['t3']),
         dict(B, kind='default', name='t6', deps=['t3'])])
+    # always-outdated steps with one and with two outputs, and their consumers
+    for nouts in (1, 2):
+        out.append([
+            dict(B, kind='step', name='t1', ins=[F('d1')], nouts=nouts,
+                 always=True),
+            dict(B, kind='exe', name='t2', srcs=[F('s1'), T('t1')]),
+            dict(B, kind='step', name='t3', ins=[T('t1'), F('s3')]),
+            dict(B, kind='exe', name='t4', srcs=[F('s2')])])
     return out
 
 
